@@ -485,6 +485,17 @@ func (c *Config) validateCircuitBreaker() error {
 		if c.CircuitBreaker.MaxRequests < 0 {
 			return fmt.Errorf("circuit breaker max requests must be non-negative (got %d)", c.CircuitBreaker.MaxRequests)
 		}
+		// The breaker keeps these counts as 32-bit numbers: a larger value would be cut down to
+		// its low 32 bits (4294967296 becomes 0, which then means "the default")
+		for name, count := range map[string]int{
+			"failure threshold": c.CircuitBreaker.FailureThreshold,
+			"success threshold": c.CircuitBreaker.SuccessThreshold,
+			"max requests":      c.CircuitBreaker.MaxRequests,
+		} {
+			if int64(count) > math.MaxUint32 {
+				return fmt.Errorf("circuit breaker %s must be at most %d (got %d)", name, uint32(math.MaxUint32), count)
+			}
+		}
 	}
 	return nil
 }
